@@ -7,7 +7,14 @@ suitable translation, carries the pattern onto the returned positions within ato
 a mirror-image decoy of a CHIRAL pattern is never among the matches.
 Tie: the same search through the Lean model (Model/Find.lean) with the rotation oracle / choices exported by the hook;
 compared: near window, candidate groups, tuples passing the rotation re-check, reported matches (indices exactly,
-positions exact-rational vs float within 1e-9), returned quaternion == the hook's quaternion of the chosen candidate."""
+positions exact-rational vs float within 1e-9), returned quaternion == the hook's quaternion of the chosen candidate.
+The tolerance of every oracle test is the tolerance the CALLER REQUESTED (never one read back from the code).
+Argument space: atol from 0 / 1e-4 … 0.3, hints, keywords left at their defaults or passed explicitly, numpy-integer hints,
+verbose, return_positions_and_quats True and False (index-only results: shape / existence / elements / distinctness and
+the pairwise-distance necessary condition), and SEQUENCES of calls in one process on the same Atoms objects (two
+tolerances on one structure, an orthorhombic then a triclinic cell with the same diagonal, two patterns, several
+structures), each judged by the oracle, compared with a fresh evaluation (modules reloaded, new objects) and checked for
+mutated inputs."""
 import itertools
 import multiprocessing
 import os
@@ -22,12 +29,16 @@ RULE = ("periodic structures from findlib.planted_structure: 0-3 planted rigid c
         "LAMMPS-triclinic (+/- tilt) / arbitrarily rotated cells; poses random / identity / 90 / 180 deg; origins random or "
         "hugging faces / edges / corners ({0,.01,.5,.99,.999}); decoys: mirror images, near misses (one atom moved by 3-5 "
         "atol), lone same-element atoms, rigid copies with ONE element replaced or two elements exchanged; hints none / "
-        "complete triples / partial (incl. index 0, orientation point clearly off the axis); atol in {.02,.05,.1,.2}. "
+        "complete triples / partial (incl. index 0, orientation point clearly off the axis); atol in {1e-4,2e-4,5e-4,2e-3,"
+        ".02,.05,.1,.2,.3} and the edge 0; copies with ONE bond 2.5-8 atol too long; keywords explicit or left at their "
+        "defaults, return_positions_and_quats True/False, verbose, numpy-integer hints; sequences of 2-3 calls on shared "
+        "Atoms objects (two tolerances / same-diagonal ortho+triclinic cells / two patterns / several structures) each "
+        "compared with a fresh evaluation. "
         "Thorough adds the complete grid origin-fraction^3 x 4 poses x 11 patterns x 3 cell kinds. "
         "Non-trivial = the search reported at least one match of a pattern with >= 2 atoms AND (a planted copy straddles "
         "a cell face OR the structure contains a decoy with the pattern's geometry).")
 
-GEOM_DECOYS = ("mirror", "nearmiss", "wrongelem", "permuted")
+GEOM_DECOYS = ("mirror", "nearmiss", "wrongelem", "permuted", "stretch")
 
 
 # ------------------------------------------------------------------ the property, on the real result
@@ -89,27 +100,241 @@ def oracle_sound(inp, ok):
     return None
 
 
+def oracle_indices(inp, idx_list):
+    """the property on an index-only result (return_positions_and_quats=False): shape, existence, elements in pattern
+    order, distinctness, and a NECESSARY condition of "rigid image within atol": every interatomic pattern distance is
+    reproduced, for some periodic images, within 2·√3·(atol + 1e-5·|x|max). Returns None or (text, observed)."""
+    elems = inp["elems"]
+    n = len(elems)
+    S = np.array(inp["pos"], dtype=float).reshape(n, 3)
+    cell = np.array(inp["cell"], dtype=float)
+    pel = list(inp["pattern"]["elems"])
+    P = np.array(inp["pattern"]["pos"], dtype=float).reshape(len(pel), 3)
+    atol = float(inp["atol"])
+    xmax = (np.abs(S).max() if n else 0.0) + np.abs(cell).sum(axis=0).max()
+    bound = 2 * np.sqrt(3.0) * (atol + 1e-5 * xmax) + 1e-9
+    offs = np.array(list(itertools.product(range(-2, 3), repeat=3)), dtype=float).dot(cell)
+    for mi, idx in enumerate(idx_list):
+        idx = [int(a) for a in idx]
+        if len(idx) != len(pel):
+            return "match %d lists %d atoms for a pattern of %d" % (mi, len(idx), len(pel)), idx
+        for k, a in enumerate(idx):
+            if not (0 <= a < n):
+                return "match %d: index %d does not exist in a structure of %d atoms" % (mi, a, n), idx
+            if elems[a] != pel[k]:
+                return "match %d: atom %d is %s, pattern atom %d is %s" % (mi, a, elems[a], k, pel[k]), idx
+        if len(set(idx)) != len(idx):
+            return "match %d: atoms not distinct" % mi, idx
+        for k in range(len(pel)):
+            for j in range(k):
+                d0 = np.linalg.norm(P[k] - P[j])
+                d = np.linalg.norm(S[idx[k]] - S[idx[j]] + offs, axis=1)
+                off = np.abs(d - d0).min()
+                if off > bound:
+                    return ("match %d: not a rigid image within atol: the distance between pattern atoms %d and %d is off by "
+                            "%.3g for every choice of periodic images" % (mi, j, k, off)), {"idx": idx, "atol": atol, "bound": float(bound)}
+    return None
+
+
 # ------------------------------------------------------------------ running one case
 
-def inp_of(case, atol, hints, seed):
-    return {"op": "find-sound", "elems": case["elems"], "pos": case["pos"], "cell": case["cell"],
-            "pattern": case["pattern"], "atol": atol, "hints": list(hints), "seed": seed,
-            "decoys": [[k, list(grp)] for k, grp in case.get("decoys", [])],
-            "planted": [list(p) for p in case.get("planted", [])], "info": case.get("info", {})}
+def inp_of(case, atol, hints, seed, **style):
+    inp = {"op": "find-sound", "elems": case["elems"], "pos": case["pos"], "cell": case["cell"],
+           "pattern": case["pattern"], "atol": atol, "hints": list(hints), "seed": seed,
+           "decoys": [[k, list(grp)] for k, grp in case.get("decoys", [])],
+           "planted": [list(p) for p in case.get("planted", [])], "info": case.get("info", {})}
+    inp.update(style)
+    return inp
 
 
-def run_real(inp):
+def call_find(s, p, inp):
+    """ONE call of the real search with the hook installed; every argument as `inp` says:
+    positions (return_positions_and_quats), omit_defaults (keywords at their default value are not passed at all),
+    verbose, np_hints (hints as numpy integers). Returns dict(ok | err, hook)."""
+    import mofun.mofun as mm
+    sink = fl.Sink()
+    mm._verif_sink = sink
+    mm._verif_on = True
+    positions = inp.get("positions", True)
+    names = ("axisp1_idx", "axisp2_idx", "opoint_idx")
+    kw = {}
+    for nm, h in zip(names, inp["hints"]):
+        if h is not None:
+            kw[nm] = np.int64(h) if inp.get("np_hints") else int(h)
+        elif not inp.get("omit_defaults"):
+            kw[nm] = None
+    if not (inp.get("omit_defaults") and inp["atol"] == 0.05):
+        kw["atol"] = inp["atol"]
+    if positions or not inp.get("omit_defaults"):
+        kw["return_positions_and_quats"] = bool(positions)
+    if inp.get("verbose"):
+        kw["verbose"] = True
+    try:
+        seed = inp.get("seed", 0)
+        random.seed(seed)
+        np.random.seed(seed % (2 ** 32))
+        with core.quiet():
+            out = mm.find_pattern_in_structure(s, p, **kw)
+        if positions:
+            idx, pos, quats = out
+            ok = {"idx": [[int(i) for i in t] for t in idx], "pos": [[[float(x) for x in q] for q in m] for m in pos],
+                  "quats": [[float(x) for x in q.as_quat()] for q in quats]}
+        else:
+            ok = {"idx": [[int(i) for i in t] for t in out]}
+        return {"ok": ok, "hook": sink}
+    except Exception as e:  # noqa
+        return {"err": "error:" + type(e).__name__, "msg": str(e)[:200], "hook": sink}
+    finally:
+        mm._verif_sink = None
+
+
+def snapshot(a):
+    return (np.array(a.positions, dtype=float).copy(), list(a.elements), None if a.cell is None else np.array(a.cell, dtype=float).copy())
+
+
+def unchanged(a, snap):
+    pos, els, cell = snap
+    return (np.array_equal(np.array(a.positions, dtype=float), pos) and list(a.elements) == els
+            and (cell is None or np.array_equal(np.array(a.cell, dtype=float), cell)))
+
+
+def judge(inp, res):
+    """the oracle for the kind of result that was requested"""
+    if "ok" not in res:
+        return None               # nothing was reported; a raise is a matter of C02/C03, counted by the caller
+    if inp.get("positions", True):
+        return oracle_sound(inp, res["ok"])
+    return oracle_indices(inp, res["ok"]["idx"])
+
+
+HISTORY = []      # the calls made in this process since the library modules were last fresh (see `faithful_input`)
+
+
+def _logged(inp):
+    c = dict(inp)
+    c.pop("sobj", None)
+    c.pop("pobj", None)
+    return c
+
+
+def run_real(inp, log=True):
+    if log:
+        HISTORY.append(_logged(inp))
     s = fl.mk_structure(inp["elems"], inp["pos"], inp["cell"])
     p = g.mk_pattern(inp["pattern"])
-    return fl.run_find(s, p, inp["atol"], hints=tuple(inp["hints"]), seed=inp.get("seed", 0))
+    ss, ps = snapshot(s), snapshot(p)
+    res = call_find(s, p, inp)
+    res["inputs_unchanged"] = unchanged(s, ss) and unchanged(p, ps)
+    return res
 
 
-def one(inp):
+def one(inp, log=True):
     """real code + oracle -> (res, None | (text, observed))"""
-    res = run_real(inp)
-    if "ok" not in res:
-        return res, None          # nothing was reported; a raise is a matter of C02/C03, counted by the caller
-    return res, oracle_sound(inp, res["ok"])
+    res = run_real(inp, log)
+    return res, judge(inp, res)
+
+
+def keys_of(res):
+    return sorted(tuple(sorted(t)) for t in res["ok"]["idx"]) if "ok" in res else res.get("err")
+
+
+def fresh_modules():
+    """module-level state of the library (caches, globals — also ones created lazily) is gone: the library modules are
+    dropped and imported anew, so the next call is a first call. (importlib.reload would keep the old module dict.)"""
+    import importlib
+    import sys
+    for name in [n for n in sys.modules if n == "mofun" or n.startswith("mofun.")]:
+        del sys.modules[name]
+    importlib.import_module("mofun")
+    importlib.import_module("mofun.mofun")
+    del HISTORY[:]
+
+
+def run_sequence(calls, log=True):
+    """the calls IN ORDER in this process, re-using one Atoms object per distinct `sobj` / `pobj`.
+    Returns [(res, bad)] plus a list of texts about mutated inputs."""
+    objs, snaps, out, notes = {}, {}, [], []
+    for c in calls:
+        ks, kp = ("s", c.get("sobj", id(c))), ("p", c.get("pobj", id(c)))
+        if ks not in objs:
+            objs[ks] = fl.mk_structure(c["elems"], c["pos"], c["cell"])
+            snaps[ks] = snapshot(objs[ks])
+        if kp not in objs:
+            objs[kp] = g.mk_pattern(c["pattern"])
+            snaps[kp] = snapshot(objs[kp])
+        if log:
+            HISTORY.append(_logged(c))
+        res = call_find(objs[ks], objs[kp], c)
+        out.append((res, judge(c, res)))
+        for k in (ks, kp):
+            if not unchanged(objs[k], snaps[k]):
+                notes.append("call %d changed its %s argument" % (len(out) - 1, "structure" if k[0] == "s" else "pattern"))
+                snaps[k] = snapshot(objs[k])
+    return out, notes
+
+
+def faithful_input(inp, bad, seq=None):
+    """a failure was observed on call `inp` (possibly the last of the sequence `seq`) after the calls in HISTORY.
+    Returns (replayable input, failure) — the single call if it fails on its own, else the sequence, else the shortest
+    tail of the process history (doubling) that reproduces it from fresh modules."""
+    past = list(HISTORY)
+    fresh_modules()
+    _, b = one(inp, log=False)
+    if b:
+        return inp, b
+    tries = []
+    if seq:
+        tries.append(("sequence", seq))
+        past = past[:max(0, len(past) - len(seq))]
+    n = 1
+    while n < 2 * len(past) and n <= 8192:
+        tries.append(("history", past[-n:] + (seq or [inp])))
+        n *= 2
+    for kind, calls in tries:
+        fresh_modules()
+        results, _ = run_sequence(calls, log=False)
+        hit = [i for i, (_, bb) in enumerate(results) if bb]
+        if hit and kind == "history" and len(calls) > 3:
+            # shrink: does ONE earlier call followed by the failing one suffice?
+            tail = seq or [inp]
+            for prev in reversed(calls[:len(calls) - len(tail)][-400:]):
+                fresh_modules()
+                r2, _ = run_sequence([prev] + tail, log=False)
+                h2 = [i for i, (_, bb) in enumerate(r2) if bb]
+                if h2:
+                    calls, results, hit = [prev] + tail, r2, h2
+                    break
+        if hit:
+            fresh_modules()
+            return ({"op": "find-seq", "kind": kind, "calls": calls, "failing": hit[0]},
+                    ("call %d of a sequence of %d calls in one process: %s" % (hit[0], len(calls), results[hit[0]][1][0]), results[hit[0]][1][1]))
+    fresh_modules()
+    return inp, (bad[0] + " (observed after earlier calls in the same process; not reproduced in isolation)", bad[1])
+
+
+def check_sequence(ctx, kind, calls, oracle_only=False):
+    ctx.count("seq")
+    ctx.count("seq:" + kind)
+    results, notes = run_sequence(calls)
+    for i, (c, (res, bad)) in enumerate(zip(calls, results)):
+        record(ctx, c, res, None, tags=["seq:call", "atol:%g" % c["atol"], "positions:%s" % c["positions"]])
+        if bad:
+            rin, rbad = faithful_input(c, bad, seq=calls[:i + 1])
+            ctx.fail(rbad[0], rin, observed=rbad[1], required=REQUIRED + "; the same for every call of a sequence",
+                     tags=["seq", "seq:" + kind] + tags_of(c))
+            return
+    if oracle_only:
+        return
+    for i, c in enumerate(calls):
+        fresh_modules()
+        fres = run_real(c)
+        ctx.compared += 1
+        if keys_of(fres) != keys_of(results[i][0]):
+            ctx.disagree("find-seq", {"op": "find-seq", "kind": kind, "calls": calls, "failing": i},
+                         keys_of(results[i][0]), keys_of(fres), "call %d of a sequence reports other atom groups than a fresh evaluation" % i)
+    for t in notes:
+        ctx.compared += 1
+        ctx.disagree("find-seq", {"op": "find-seq", "kind": kind, "calls": calls}, t, "inputs unchanged", t)
 
 
 def nontrivial(inp, res):
@@ -126,6 +351,10 @@ def tags_of(inp):
     return t + sorted(set("decoy:" + k for k, _ in inp["decoys"]))
 
 
+REQUIRED = ("distinct existing atoms of the pattern's elements in order; positions = stored + lattice vector; returned proper "
+            "rotation + a translation carries the pattern onto them within the REQUESTED atol; no mirror image of a chiral pattern")
+
+
 def record(ctx, inp, res, bad, tags=None):
     ctx.case(inp, nontrivial=nontrivial(inp, res))
     for t in (tags if tags is not None else tags_of(inp)):
@@ -134,12 +363,11 @@ def record(ctx, inp, res, bad, tags=None):
         ctx.count("raised:" + res.get("err", "?"))
     else:
         ctx.count("matches", len(res["ok"]["idx"]))
+        ctx.count("result:" + ("idx+pos+quats" if inp.get("positions", True) else "idx only"))
+    if inp.get("omit_defaults"):
+        ctx.count("call:defaults omitted")
     if bad:
-        ctx.fail(bad[0], inp, observed=bad[1],
-                 required="distinct existing atoms of the pattern's elements in order; positions = stored + lattice vector; "
-                          "returned proper rotation + a translation carries the pattern onto them within atol; no mirror image "
-                          "of a chiral pattern",
-                 tags=tags_of(inp))
+        ctx.fail(bad[0], inp, observed=bad[1], required=REQUIRED, tags=tags_of(inp))
 
 
 # ------------------------------------------------------------------ the tie
@@ -177,7 +405,7 @@ def stable_batch(lean, ops, rel=1e-6):
     for op in ops:
         a = Fraction(op["atol"])
         batch += [op, dict(op, atol=core.q(a * (1 - r))), dict(op, atol=core.q(a * (1 + r)))]
-    out = lean.run(batch) if batch else []
+    out = lean_parallel(lean, batch)
     res = []
     for i in range(len(ops)):
         v = [fl.model_view(x) for x in out[3 * i:3 * i + 3]]
@@ -185,10 +413,25 @@ def stable_batch(lean, ops, rel=1e-6):
     return res
 
 
+def lean_parallel(lean, ops):
+    """the model on many ops: a few driver processes side by side (the interpreter is the slow part of the check)"""
+    from concurrent.futures import ThreadPoolExecutor
+    k = max(1, min(4, (os.cpu_count() or 2) // 2, len(ops) // 20))
+    if k <= 1:
+        return lean.run(ops) if ops else []
+    chunks = [ops[i::k] for i in range(k)]
+    with ThreadPoolExecutor(max_workers=k) as ex:
+        outs = list(ex.map(lean.run, chunks))
+    res = [None] * len(ops)
+    for i, out in enumerate(outs):
+        res[i::k] = out
+    return res
+
+
 def tie(ctx, pairs):
     """pairs: [(inp, res)] with res ok -> model run, comparison of the views"""
     ops = [fl.find_op(inp, inp["atol"], tuple(inp["hints"]), res["hook"]) for inp, res in pairs]
-    models = ctx.lean.run(ops) if ops else []
+    models = lean_parallel(ctx.lean, ops)
     doubtful = []
     for (inp, res), op, m in zip(pairs, ops, models):
         iv, mv = fl.impl_view(res), fl.model_view(m)
@@ -225,7 +468,7 @@ def grid_tasks():
 def grid_inp(seed, task):
     pname, ck, pose, fr = task
     rng = random.Random("c01-grid-%s-%s" % (seed, task))
-    atol = rng.choice(g.ATOLS)
+    atol = rng.choice(g.ATOLS + g.ATOLS + g.TINY_ATOLS + [0.3])
     case = g.planted_at(rng, pname, ck, pose, fr, atol)
     return inp_of(case, atol, g.valid_hints(rng, case["pattern"]) if rng.random() < 0.3 else (None, None, None),
                   rng.randrange(1 << 30))
@@ -236,7 +479,10 @@ def _grid_worker(args):
     inp = grid_inp(seed, task)
     res, bad = one(inp)
     nm = len(res["ok"]["idx"]) if "ok" in res else -1
-    return task, nontrivial(inp, res), g.crossings(inp), nm, bad, (inp if bad else core.sha(inp))
+    rin = inp
+    if bad:
+        rin, bad = faithful_input(inp, bad)
+    return task, nontrivial(inp, res), g.crossings(inp), nm, bad, (rin if bad else core.sha(inp))
 
 
 def run_grid(ctx, tasks, procs):
@@ -259,7 +505,8 @@ def run_grid(ctx, tasks, procs):
         else:
             ctx.count("grid:matches", nm)
         if bad:
-            ctx.fail(bad[0], inp, observed=bad[1], required="see the random stream", tags=["grid"] + tags_of(inp))
+            ctx.fail(bad[0], inp, observed=bad[1], required=REQUIRED,
+                     tags=["grid"] + (tags_of(inp) if inp.get("op") == "find-sound" else ["seq"]))
 
 
 # ------------------------------------------------------------------ the check
@@ -269,19 +516,52 @@ def run(ctx, oracle_only=False, scale=1):
     rng = ctx.rng
     pairs = []
     n_rand = ctx.n(260, 3000) * scale
-    n_tie = 0 if oracle_only else ctx.n(200, 1500)
+    n_tie = 0 if oracle_only else ctx.n(300, 1500)
     for _ in range(n_rand):
-        case, atol, hints = g.random_case(rng)
-        inp = inp_of(case, atol, hints, rng.randrange(1 << 30))
+        case, atol, hints = g.zero_tol_case(rng) if rng.random() < 0.03 else g.random_case(rng)
+        inp = inp_of(case, atol, hints, rng.randrange(1 << 30), **g.call_style(rng, atol, hints))
         res, bad = one(inp)
-        record(ctx, inp, res, bad)
-        if not bad and len(pairs) < n_tie:
+        if bad:
+            rin, rbad = faithful_input(inp, bad)
+            record(ctx, inp, res, None)
+            ctx.fail(rbad[0], rin, observed=rbad[1], required=REQUIRED, tags=tags_of(inp))
+            continue
+        record(ctx, inp, res, None)
+        if not res.get("inputs_unchanged", True) and not oracle_only:
+            ctx.compared += 1
+            ctx.disagree("find", inp, "an argument was modified by the call", "inputs unchanged", "the search changed its structure or pattern argument")
+        if not inp["positions"]:
+            # index-only result: the same call with positions and rotations requested must report the same atom groups
+            # (and is judged by the full oracle)
+            full = dict(inp, positions=True)
+            fres, fbad = one(full)
+            if fbad:
+                rin, rbad = faithful_input(full, fbad)
+                fbad = rbad
+                full_rec = rin
+            else:
+                full_rec = full
+            record(ctx, full, fres, None)
+            if fbad:
+                ctx.fail(fbad[0], full_rec, observed=fbad[1], required=REQUIRED, tags=tags_of(full))
+            if not fbad and not oracle_only:
+                ctx.compared += 1
+                if keys_of(fres) != keys_of(res):
+                    ctx.disagree("find", inp, keys_of(res), keys_of(fres), "index-only call and full call report different atom groups")
+            inp, res, bad = full, fres, fbad
+            if bad:
+                continue
+        if len(pairs) < n_tie and atol > 0:
             if "ok" in res:
                 pairs.append((inp, res))
             elif not oracle_only:
                 # valid input, yet the search raised: the model has no such outcome
                 ctx.compared += 1
                 ctx.disagree("find", inp, {"err": res.get("err"), "msg": res.get("msg")}, None, "the search raised on a valid input")
+    # sequences of calls in one process
+    for _ in range(ctx.n(60, 400) * scale):
+        kind, calls = g.random_sequence(rng)
+        check_sequence(ctx, kind, calls, oracle_only)
     tasks = grid_tasks()
     if ctx.tier == "quick":
         tasks = rng.sample(tasks, 150 * scale)
@@ -304,5 +584,9 @@ def search(ctx):
 
 def replay(ctx, rec):
     inp = rec["input"]
+    if inp.get("op") == "find-seq":
+        fresh_modules()
+        results, _ = run_sequence(inp["calls"], log=False)
+        return all(bad is None for _, bad in results)
     _, bad = one(inp)
     return bad is None
